@@ -85,6 +85,35 @@ def op_cp_reweight(state: State, a: Dict[str, Any], env: simenv.SimEnv) -> Any:
     for ed in a["edits"]:
         if not order:
             break
+        if "swap_on_off" in ed:
+            # exchange the weight of an edge on the current critical path with that of an edge off it
+            path = [int(n) for n in getattr(cp, "critical_path_nodes", [])]
+            on = sorted(set(zip(path, path[1:])) & set(order))
+            off = [e for e in order if e not in set(on)]
+            if not on or not off:
+                continue
+            (u, v), (x, y) = on[int(ed["swap_on_off"][0]) % len(on)], off[int(ed["swap_on_off"][1]) % len(off)]
+            wa, wb = cp.edges[u, v]["weight"], cp.edges[x, y]["weight"]
+            cp.edges[u, v]["weight"], cp.edges[x, y]["weight"] = wb, wa
+            changed.append([u, v, canon_value(wa), canon_value(wb)])
+            changed.append([x, y, canon_value(wb), canon_value(wa)])
+            continue
+        if "swap" in ed or "move" in ed:
+            # weight-conserving what-if edits: exchange two weights / move part of one weight to another edge
+            pa, pb = ed.get("swap") or ed.get("move")
+            (u, v), (x, y) = order[int(pa) % len(order)], order[int(pb) % len(order)]
+            if (u, v) == (x, y):
+                continue
+            wa, wb = cp.edges[u, v]["weight"], cp.edges[x, y]["weight"]
+            if "swap" in ed:
+                na, nb = wb, wa
+            else:
+                k = int(wa) // 2
+                na, nb = wa - k, wb + k
+            cp.edges[u, v]["weight"], cp.edges[x, y]["weight"] = na, nb
+            changed.append([u, v, canon_value(wa), canon_value(na)])
+            changed.append([x, y, canon_value(wb), canon_value(nb)])
+            continue
         u, v = order[int(ed["pick"]) % len(order)]
         old = cp.edges[u, v]["weight"]
         if "set" in ed:
